@@ -74,11 +74,11 @@ Print Assumptions C04_mixed.
 
 (* DiskRevolve / PeriodicDiskRevolve: everything but this property's own error class is excluded -- the verdict is "no error" or
    E_leftover at the final EndReverse, and nothing raises (for E_leftover itself see the *_refuted theorems below) *)
-Theorem C04_disk_revolve_only_leftover_partial : forall (N ram disk uf ub wd rd : Z) (k : nat), 1 <= N -> 1 <= ram ->
+Theorem C04_disk_revolve_only_leftover_partial : forall (N ram disk uf ub wd rd : Z) (k : nat), 1 <= N -> 0 <= ram -> (2 <= N -> 1 <= ram) ->
   exists o0 m ls, run_case (PRev RevConv.KDiskRevolve N ram disk uf ub wd rd) (DiskRun.disk_xparams N ram) (repeat Next k) = Ok (o0, m, ls) /\ no_raise ls /\ DiskBridge3.leftover_or_ok m.
 Proof. exact DiskRun.disk_revolve_run. Qed.
 Print Assumptions C04_disk_revolve_only_leftover_partial.
-Theorem C04_hrevolve_only_leftover_partial : forall (N ram disk uf ub wd rd : Z) (k : nat), 1 <= N -> 1 <= ram -> 0 <= disk ->
+Theorem C04_hrevolve_only_leftover_partial : forall (N ram disk uf ub wd rd : Z) (k : nat), 1 <= N -> 0 <= ram -> (2 <= N -> 1 <= ram) -> 0 <= disk ->
   exists o0 m ls, run_case (PRev RevConv.KHRevolve N ram disk uf ub wd rd) (DiskRun.disk_xparams N ram) (repeat Next k) = Ok (o0, m, ls) /\ no_raise ls /\ DiskBridge3.leftover_or_ok m.
 Proof. exact HRevTop.hrevolve_run_total. Qed.
 Print Assumptions C04_hrevolve_only_leftover_partial.
